@@ -49,13 +49,13 @@ func checkC02(w *World, r *Report) {
 	ro := w.Roles()
 	r.Undecided = []string{
 		"that cumulative emission equals the integer part of the schedule's cumulative emission: the formulas in LinearMinting / ExponentialStepMinting.AmountToMint are arithmetic; a wrong coefficient that keeps the shape is invisible to these rules",
-		"that the selection loop returns the predecessor with the greatest SequenceId below the current one",
 	}
 	r.Rule("C02.fromscratch", "P6", "the minted amount = TruncateInt(AmountToMint(periodStart, blockTime) + RemainderFromPreviousMinter) - AmountMinted; it is independent of the previous block time (LastMintBlockTime is used only by the same-block guard); only truncation occurs on the slice, never rounding up", 5)
 	r.Rule("C02.nonneg", "P5", "BANK.mint and the update of AmountMinted are dominated by the false edge of amount.IsNegative()", 2)
 	r.Rule("C02.boundaries", "P7", "ordering tables: Mint before StartTime has no effect; hand-over: no EndTime or now before it => stay, now after it => history + successor; LinearMinting: now before start => zero, now after end => the full Amount; ExponentialStepMinting: now after end => the computation uses end and no returned value depends on the block time (origins restricted to live edges)", 15)
 	r.Rule("C02.carry", "P6", "successor state: SequenceId = old+1, AmountMinted = 0, RemainderFromPreviousMinter = fractional part of this period's total (not a constant); the history entry is the old state after its own update; the amount returned upward = minted(successor) + amount", 5)
 	r.Rule("C02.units", "P9", "units of measure over SSA: in the two schedule formulas every sum, difference, comparison and merge combines values of the same time scale (ns / ms / s are distinct units), conversions to Duration and Time.Add receive ns, and the amount returned is a pure number (amount x time / time in one scale) - so the result cannot depend on the scale or on sub-unit truncation of one operand only", 2)
+	r.Rule("C02.select", "P7", "the shared selection function picks the current period and its predecessor by sequence id over all configured periods: per iteration, current := candidate exactly when the ids are equal, previous := candidate exactly when the candidate's id is below the current id and above the previous candidate's (ordering table over the three ids and the nil-ness of the previous candidate); nothing else is assigned, the loop has no early exit, the loop-carried values are returned", 18)
 	r.Rule("C02.start", "P6", "period start = params.StartTime when there is no predecessor, the predecessor's EndTime otherwise; current and predecessor are the two results of one call on (params.Minters, state); emission and inflation obtain them from the same function", 4)
 	if !ro.checkFloors(r) {
 		return
@@ -456,26 +456,10 @@ func checkC02(w *World, r *Report) {
 		// history = old state after its update
 		r.Check(instrDominates(amStore, histCall.Top()), "C02.carry", "history entry is the old state after its own update", w.Pos(histCall.Site.Instr.Pos()), "the AmountMinted update dominates SetMinterStateHistory", "the history entry is stored before the final update of the old period")
 		// result = minted(successor) + amount
-		okRes := false
-		if len(recCall.Chain) == 0 {
-			for _, ret := range Returns(mint) {
-				rv := retVals(ret)[0]
-				for _, v := range append([]ssa.Value{rv}, phiEdges(rv)...) {
-					if c, ok := isCallTo(v, "math.Int.Add"); ok {
-						a := c.Common().Args
-						isRec := func(x ssa.Value) bool {
-							ex, ok := x.(*ssa.Extract)
-							return ok && ex.Index == 0 && ex.Tuple == recCall.Site.Instr.(ssa.Value)
-						}
-						if (isRec(a[0]) && a[1] == amount) || (isRec(a[1]) && a[0] == amount) {
-							okRes = true
-						}
-					}
-				}
-			}
-		}
-		r.Check(okRes, "C02.carry", "amount returned upward = minted(successor) + amount", w.Pos(recCall.Site.Instr.Pos()), "Add(result of the recursive call, amount)", "the total reported for the block omits this period's or the successor's part")
+		mintTotalRule(w, r, "C02.carry")
 	}
+	// ---------- C02.select ----------
+	minterSelectRule(w, r, "C02.select")
 	// ---------- C02.start ----------
 	periodStartRule(w, r, "C02.start", []*ssa.Function{mint, infl})
 	// ---------- C02.units ----------
@@ -636,6 +620,174 @@ func visitedCallNamed(o *Origin, frag string) bool {
 	for v := range o.Values {
 		if c, ok := v.(*ssa.Call); ok && strings.Contains(callName(c.Common()), frag) {
 			return true
+		}
+	}
+	return false
+}
+
+// mintTotalRule: the amount the minting routine reports upward for a block loses no term. A = the amount minted by
+// this activation, P = the running totals handed in (math.Int parameters, if the routine is written with an
+// accumulator), R = what the recursion into the successor period returns. Without a hand-over every successful
+// return carries A and every P; with a hand-over it carries R, and A and every P are either added to it or were
+// handed down to the recursion. A return that is reached only for a negative amount (nothing minted) need not carry A.
+func mintTotalRule(w *World, r *Report, rule string) {
+	cg := w.CG()
+	mint := w.Func("x/cfeminter/keeper.Keeper.mint")
+	if mint == nil {
+		r.Unk("infra.anchor", "x/cfeminter/keeper.Keeper.mint", "", "anchor not found")
+		return
+	}
+	var amount ssa.Value
+	for _, fs := range FieldStores(mint) {
+		if fs.Field == "AmountMinted" && namedIs(fs.Struct, "x/cfeminter/types", "MinterState") {
+			if inc, ok := incrementOf(fs); ok {
+				amount = inc
+			}
+		}
+	}
+	var rec *ssa.Call
+	nrec := 0
+	for _, s := range cg.Sites[mint] {
+		if calleeIs(s, "x/cfeminter/keeper.Keeper.mint") {
+			rec = siteCall(s)
+			nrec++
+		}
+	}
+	construct := "amount returned upward = this period's amount + what was handed in + what the successor returns"
+	if amount == nil || rec == nil || nrec != 1 {
+		r.Unk(rule, construct, w.Pos(mint.Pos()), "the minting routine's own amount or its single recursion into the successor was not found")
+		return
+	}
+	var recRes ssa.Value
+	for _, ref := range *rec.Referrers() {
+		if ex, ok := ref.(*ssa.Extract); ok && ex.Index == 0 {
+			recRes = ex
+		}
+	}
+	var accs []*ssa.Parameter
+	for _, p := range mint.Params {
+		if typeString(p.Type()) == tInt {
+			accs = append(accs, p)
+		}
+	}
+	derives := func(v, target ssa.Value) bool { return mustDeriveSum(w, v, target, 0) }
+	carriesAll := func(v ssa.Value, needA bool) string {
+		if needA && !derives(v, amount) {
+			return "this period's amount"
+		}
+		for _, p := range accs {
+			if !derives(v, p) {
+				return "the running total handed in (" + p.Name() + ")"
+			}
+		}
+		return ""
+	}
+	term := func(v ssa.Value) string {
+		if isBlockTime(v) {
+			return "now"
+		}
+		if _, ok := derefOfPtrField(v, "EndTime"); ok {
+			return "end"
+		}
+		if loadOfField(v, "EndTime", nil) {
+			return "endptr"
+		}
+		return ""
+	}
+	nonNeg := nonNegEdges(mint, amount)
+	ok, why, n := true, "", 0
+	for _, sc := range []struct {
+		name string
+		s    int
+	}{{"no hand-over", -1}, {"hand-over", 1}} {
+		live := ReachUnder(mint, OrderEval(term, twoTermCmp("now", "end", sc.s), func(t string) (bool, bool) { return false, t == "endptr" }))
+		for _, ret := range Returns(mint) {
+			if !live.Blocks[ret.Block()] {
+				continue
+			}
+			rv := retVals(ret)
+			if len(rv) != 2 || !isNilConst(rv[1]) {
+				continue // error returns end the block (C01.abort)
+			}
+			needA := MustPass(mint, nonNeg, ret.Block())
+			for _, v := range live.LiveValues(rv[0]) {
+				n++
+				if sc.s < 0 || !live.LiveInstr(rec) || !canReach(rec, ret) {
+					if miss := carriesAll(v, needA); miss != "" {
+						ok, why = false, sc.name+": a successful return omits "+miss
+					}
+					continue
+				}
+				if recRes == nil || !derives(v, recRes) {
+					ok, why = false, sc.name+": the value returned after the recursion omits what the successor minted"
+					continue
+				}
+				if carriesAll(v, needA) == "" {
+					continue
+				}
+				// handed down to the recursion instead?
+				down := "nothing is handed down"
+				for _, a := range rec.Common().Args {
+					if typeString(a.Type()) != tInt {
+						continue
+					}
+					down = carriesAll(a, true)
+					if down == "" {
+						break
+					}
+				}
+				if down != "" {
+					ok, why = false, sc.name+": neither the returned value nor the total handed to the recursion carries "+down
+				}
+			}
+		}
+	}
+	r.Check(ok && n > 0, rule, construct, w.Pos(rec.Pos()), "every successful return carries every term", "the total reported for the block drops a term: "+why)
+}
+
+// mustDeriveSum: on every path v contains target as a summand (or is target): phis need every edge, sums any operand.
+func mustDeriveSum(w *World, v, target ssa.Value, depth int) bool {
+	if v == target {
+		return true
+	}
+	if depth > 6 {
+		return false
+	}
+	switch x := v.(type) {
+	case *ssa.Phi:
+		for _, e := range x.Edges {
+			if !mustDeriveSum(w, e, target, depth+1) {
+				return false
+			}
+		}
+		return len(x.Edges) > 0
+	case *ssa.Extract:
+		return mustDeriveSum(w, x.Tuple, target, depth)
+	case *ssa.ChangeType:
+		return mustDeriveSum(w, x.X, target, depth)
+	case *ssa.UnOp:
+		if x.Op == token.MUL {
+			if al, ok := x.X.(*ssa.Alloc); ok {
+				// a local: every store into it
+				n := 0
+				for _, ref := range *al.Referrers() {
+					if s, ok := ref.(*ssa.Store); ok && s.Addr == ssa.Value(al) {
+						n++
+						if !mustDeriveSum(w, s.Val, target, depth+1) {
+							return false
+						}
+					}
+				}
+				return n > 0
+			}
+		}
+	case *ssa.Call:
+		if hasSuffixAny(callName(x.Common()), "math.Int.Add", "types.Dec.Add", "types.Coins.Add", "types.DecCoins.Add") {
+			for _, a := range x.Common().Args {
+				if mustDeriveSum(w, a, target, depth+1) {
+					return true
+				}
+			}
 		}
 	}
 	return false
